@@ -164,3 +164,25 @@ package container
 //@   loop 3 invariant !sawSystemRole(0)
 //@   ensures [no_system_role_target] err == nil ==> !sawSystemRole(0)
 //@   defines err == nil ==> eaclTableValidated()
+
+// A V2 session token authorises an operation only for the verb asked (with or without a
+// container given - container creation has none yet), and only if the operation's data is
+// witnessed by one of the token's subjects: the token alone is not a secret (it travels in
+// requests), so without that witness anybody who has seen the token could act for the owner.
+//@ ghost pred v2VerbAsserted() bool
+//@ ghost pred v2RequestWitnessedBySubject() bool
+//@ callrule v2_verb_fact in (*Processor).verifySessionV2
+//@   property C37
+//@   callee *Token).AssertContainer, *Token).AssertVerb
+//@   pureeffect
+//@   defines result ==> v2VerbAsserted()
+//@ callrule v2_witness_fact in (*Processor).verifySessionV2
+//@   property C37
+//@   callee crypto.AuthenticateContainerRequest, *Token).AssertAuthority
+//@   pureeffect
+//@   optional
+//@   defines err == nil ==> v2RequestWitnessedBySubject()
+//@ func (*Processor).verifySessionV2
+//@   property C37
+//@   ensures [verb_asserted_for_every_operation] err == nil ==> v2VerbAsserted()
+//@   ensures [request_witnessed_by_a_subject_of_the_token] err == nil ==> v2RequestWitnessedBySubject()
